@@ -795,7 +795,15 @@ class Interp(object):
             return Un(BOOL if op in ('Eq', 'Ne', 'Lt', 'Le', 'Gt', 'Ge') else None, 'binop %s on %r, %r' % (op, a, b))
         cm = {'Eq': 'eq', 'Ne': 'ne', 'Lt': 'lt', 'Le': 'le', 'Gt': 'gt', 'Ge': 'ge'}
         if op in cm:
-            return Sc(mk_cmp(cm[op], a.term, b.term, st.cons), BOOL)
+            r = mk_cmp(cm[op], a.term, b.term, st.cons)
+            if r[0] != 'c':
+                # `x == (x as u8) as T`-style round-trip guards: a value compared with a wrapping cast of itself.
+                # Split the value at the range of the cast's target type: inside, the cast is the identity; outside,
+                # the two sides have disjoint value sets.
+                sp = self._straddling_cast(st, None, a.term) or self._straddling_cast(st, None, b.term)
+                if sp is not None:
+                    raise SplitTerm(sp[0], sp[1])
+            return Sc(r, BOOL)
         if op == 'Cmp':
             return Un(None, 'three-way compare')
         n = scalar_name(a.ty)
@@ -825,6 +833,31 @@ class Interp(object):
             # rust masks / asserts the shift amount separately; here the amount is taken as is
             pass
         return Sc(mk_op(base, a.term, b.term, n, st.cons), a.ty)
+
+    def _straddling_cast(self, st, plain, other):
+        """other: a term that contains a wrapping cast `x as T` of a token x whose value set straddles the range of T
+        -> (x, [regions of x: below, inside, above the range of T]) or None"""
+        def find(t):
+            if t[0] == 'cast':
+                v = vs_of(t[2], st.cons)
+                rng = T.ty_vs(t[1])
+                inner = t[2]
+                while inner[0] == 'cast' and vs_of(inner[2], st.cons).subset(T.ty_vs(inner[1])):
+                    inner = inner[2]
+                if inner[0] == 't' and inner[2] != 'opaque' and not v.subset(rng) and not v.meet(rng).empty():
+                    return inner, rng
+                return find(t[2])
+            if t[0] == 'op':
+                return find(t[2]) or find(t[3])
+            return None
+        hit = find(other)
+        if hit is None:
+            return None
+        x, rng = hit
+        v = vs_of(x, st.cons)
+        regions = [r for r in (VS(v.lo, rng.lo - 1) if v.lo < rng.lo else None, v.meet(rng), VS(rng.hi + 1, v.hi) if v.hi > rng.hi else None)
+                   if r is not None and not r.empty()]
+        return (x, regions) if len(regions) > 1 else None
 
     def struct_eq(self, st, a, b):
         if a.path != b.path:
@@ -1133,9 +1166,19 @@ class Interp(object):
         outs = []
         for v in sp.values:
             s2 = st.clone()
-            if T.refine(sp.term, VS.one(v), s2.cons):
+            if T.refine(sp.term, v if isinstance(v, VS) else VS.one(v), s2.cons) and self._propagate_casts(s2):
                 outs.append(s2)
         return outs
+
+    def _propagate_casts(self, st):
+        """constraints recorded on a wrapping cast `x as T` (the cast could not be inverted when they were learnt) apply to
+        x itself once x is known to fit T"""
+        for key in [k for k in st.cons if k[0] == 'cast']:
+            inner = key[2]
+            if vs_of(inner, st.cons).subset(T.ty_vs(key[1])):
+                if not T.refine(inner, st.cons[key], st.cons):
+                    return False
+        return True
 
     def fork_enum(self, st, fr, fk):
         ty, alts = fk.alternatives
